@@ -211,6 +211,43 @@ macro_rules! typed_snap {
     }};
 }
 
+#[derive(Clone, Copy)]
+#[repr(align(64))]
+pub struct A64(pub [u8; 64]);
+
+/// Typed fast paths (compile-time layout hints): `try_allocate_sized::<T>()` when the layout is exactly a type of the
+/// table, `try_allocate_slice::<T>(n)` when the size is a multiple of the alignment; None = no typed path for this layout.
+macro_rules! typed_allocate {
+    ($h:expr, $layout:expr) => {{
+        let h = $h;
+        let l: Layout = $layout;
+        let (sz, al) = (l.size(), l.align());
+        macro_rules! go {
+            ($t:ty) => {
+                if sz == al {
+                    Some(h.try_allocate_sized::<$t>().map(|p| (v(p.cast::<u8>()), sz)).map_err(|_| ()))
+                } else {
+                    Some(h.try_allocate_slice::<$t>(sz / al).map(|p| (v(p.cast::<u8>()), sz)).map_err(|_| ()))
+                }
+            };
+        }
+        if sz == 0 || sz % al != 0 {
+            None // values of zero-sized types never touch the allocator; unaligned sizes have no array type
+        } else {
+            match al {
+                1 => go!(u8),
+                2 => go!(u16),
+                4 => go!(u32),
+                8 => go!(u64),
+                16 => go!(u128),
+                32 => go!(A32),
+                64 => go!(A64),
+                _ => None,
+            }
+        }
+    }};
+}
+
 /// One allocator-interface call through the entry point named by `via`, on anything that implements the traits.
 /// `$h` is an expression of a type implementing Allocator + BumpAllocatorCore + BumpAllocatorTyped (a `&BumpScope`).
 macro_rules! do_allocate {
@@ -227,6 +264,13 @@ macro_rules! do_allocate {
                 Err(_) => Err(()),
             },
             ("layout_panicking", false) => Ok((v(h.allocate_layout(layout)), layout.size())),
+            ("typed", false) => match typed_allocate!(h, layout) {
+                Some(r) => r,
+                None => match h.try_allocate_layout(layout) {
+                    Ok(ptr) => Ok((v(ptr), layout.size())),
+                    Err(_) => Err(()),
+                },
+            },
             (_, false) => vres(Allocator::allocate(h, layout)),
             (_, true) => vres(Allocator::allocate_zeroed(h, layout)),
         }
@@ -555,7 +599,8 @@ where
 
 /// Handle-level operations that only exist on `Bump`.
 pub trait BumpOps {
-    fn as_scope_ops(&mut self) -> &mut dyn ScopeOps;
+    /// the handle operations are carried by: the `Bump` itself (variant "bump") or its `as_mut_scope()`
+    fn as_scope_ops(&mut self, through_bump: bool) -> &mut dyn ScopeOps;
     fn reset(&mut self);
     fn reset_to_start(&mut self);
 }
@@ -566,13 +611,60 @@ where
     A: Flavour + BaseAllocator<Bool<GA>>,
     MinimumAlignment<MA>: SupportedMinimumAlignment,
 {
-    fn as_scope_ops(&mut self) -> &mut dyn ScopeOps {
-        self.as_mut_scope()
+    fn as_scope_ops(&mut self, through_bump: bool) -> &mut dyn ScopeOps {
+        if through_bump { self } else { self.as_mut_scope() }
     }
     fn reset(&mut self) {
         Bump::reset(self);
     }
     fn reset_to_start(&mut self) {
         Bump::reset_to_start(self);
+    }
+}
+
+/// The same operations carried by the `Bump` type itself (its own trait impls and forwarded inherent methods).
+impl<A, const MA: usize, const UP: bool, const GA: bool, const DE: bool, const SH: bool, const MCS: usize> ScopeOps
+    for Bump<A, BumpSettings<MA, UP, GA, true, DE, SH, MCS>>
+where
+    A: Flavour + BaseAllocator<Bool<GA>>,
+    MinimumAlignment<MA>: SupportedMinimumAlignment,
+{
+    impl_scope_ops!();
+
+    fn scoped(&mut self, f: &mut dyn FnMut(&mut dyn ScopeOps)) {
+        BumpAllocator::scoped(self, |inner| f(inner));
+    }
+    fn with_guard(&mut self, f: &mut dyn FnMut(&mut dyn GuardOps)) {
+        let mut g = BumpAllocator::scope_guard(self);
+        f(&mut g);
+    }
+    fn with_claim(&self, f: &mut dyn FnMut(&mut dyn ScopeOps)) {
+        let mut g = Bump::claim(self);
+        f(&mut *g);
+    }
+    fn claim_again(&self) -> Option<String> {
+        self.as_scope().claim_again()
+    }
+    fn with_aligned(&mut self, n: usize, scoped: bool, f: &mut dyn FnMut(&mut dyn ScopeOps)) {
+        macro_rules! go {
+            ($n:literal) => {
+                if scoped {
+                    Bump::scoped_aligned::<$n, ()>(self, |inner| f(inner))
+                } else {
+                    Bump::aligned::<$n, ()>(self, |inner| f(inner))
+                }
+            };
+        }
+        match n {
+            1 => go!(1),
+            2 => go!(2),
+            4 => go!(4),
+            8 => go!(8),
+            16 => go!(16),
+            _ => panic!("bad alignment"),
+        }
+    }
+    fn prep<'s>(&'s mut self, esz: usize, eal: usize, rev: bool, via: &str, c0: usize) -> Result<Box<dyn PrepOps + 's>, ()> {
+        self.as_mut_scope().prep(esz, eal, rev, via, c0)
     }
 }
